@@ -8,6 +8,9 @@ pub trait Task: Sync + Send {
     fn multithreaded(&self) -> bool {
         self.max_parallelism() > 1
     }
+    /// Called by the worker loop when `execute` panicked. The task must not be picked up again and
+    /// whoever is waiting for its result must be told.
+    fn abort(&self) {}
 }
 
 impl Task for dyn Fn() + Send + Sync + 'static {
